@@ -1,12 +1,12 @@
 #!/bin/bash
 # runall.sh [tier] [props...] : run the registered checks one after the other, summarise exit codes
 TIER=${1:-quick}; shift
-PROPS=${@:-$(cat /verif/bin/claimed.txt)}
+PROPS=${@:-$(cat "$(dirname "$0")/claimed.txt")}
 OUT=/var/tmp/runall-$TIER.log
 : > $OUT
 for p in $PROPS; do
   t0=$(date +%s)
-  python3 /verif/bin/check.py $p --tier $TIER > /var/tmp/runall-$p.out 2>&1
+  python3 "$(dirname "$0")/check.py" $p --tier $TIER > /var/tmp/runall-$p.out 2>&1
   rc=$?
   t1=$(date +%s)
   echo "$p rc=$rc wall=$((t1-t0))s $(tail -n 1 /var/tmp/runall-$p.out | cut -c1-150)" >> $OUT
